@@ -893,6 +893,11 @@ def scale_configs(tier):
     c = dict(SCALE_DEFAULT)
     c.update({'diff_lines': 120000, 'pre_lines': 30000, '_huge': 1})
     out.append(c)
+    # long runs of the same calls on one writer / reader / tree
+    for nch, nf in ((1, 3000), (1500, 1), (300, 10)):
+        c = dict(SCALE_DEFAULT)
+        c.update({'changes': nch, 'files': nf, '_huge': 1})
+        out.append(c)
     if tier == 'thorough':
         dims = sorted(SCALE_DIMS)
         for i, a in enumerate(dims):
